@@ -6,7 +6,9 @@ Decided:
          (b64decode, bytes.decode, url_unquote_plus, tuple-unpacking of split()) are listed with the
          handlers enclosing them; if any is not under a ValueError-catching handler, then on the call path
          SignedCookieMiddleware.request -> load_cookie -> JSONCookie.unserialize -> super().unserialize some
-         clastic frame must catch Exception/ValueError, must not re-raise, and must yield an empty cookie;
+         clastic frame must catch Exception/ValueError, must not re-raise, and must yield an empty cookie; decoding primitives
+         clastic itself applies to what the client sent (to the string given to unserialize; in request(), to anything read from
+         the request other than through the loaded cookie) are under a handler of the same function that swallows the error;
   R16.b  JSONCookie.unquote is total: every call in it is under ``except Exception`` raising UnquoteError
          (the exception the dependency's MAC-then-unquote loop expects); quote() and unquote() are the two halves of
          one codec / serializer / charset; quote() is total on every value unquote() can return: it has no escaping
@@ -14,11 +16,15 @@ Decided:
          is 'ascii' unless ensure_ascii is switched off, then 'any str, unpaired surrogates included'; a strict
          encode of the latter is a violation, a non-strict error handler or an enclosing handler discharges it);
   R16.c  MAC before use (dependency): cls.unquote and the _expires comparison are dominated by the
-         safe_str_cmp(client_hash, mac.digest()) test; JSONCookie overrides neither hash_method nor
-         serialize, and its unserialize delegates to super with the same secret_key;
+         safe_str_cmp(client_hash, mac.digest()) test; the MAC is never compared with == ; a non-empty value of the data reaches
+         the returned cookie only along paths through the successful comparison; every return builds cls(<data>, secret_key, ..);
+         the branch taken when the clock is past the signed _expires empties the data; neither JSONCookie nor a mixin in front of
+         SecureCookie in its MRO overrides hash_method / serialize / load_cookie / save_cookie, and its unserialize delegates to
+         super with the same secret_key;
   R16.d  key plumbing: load_cookie gets self.secret_key / self.cookie_name; secret_key is the constructor
          argument or os.urandom; the cookie is provided under arg_name (= provides); save_cookie runs on the
-         next() result on every normal path; _expires is stamped only when absent and expiry is numeric.
+         next() result on every normal path; _expires is stamped only when absent and expiry is numeric, and what is stamped
+         is the sum of one clock reading and self.expiry (no term subtracted, none missing).
   R16.e  per-request state: no write of request() (attribute / item store, delete, mutating method call, global
          assignment; in the method itself or in a method of the class it calls) goes to an object that outlives the call --
          the middleware object, its class, a module-level container, a mutable default, or anything reached through
@@ -27,6 +33,23 @@ Decided:
          the path conditions derive from the request, the cookie or the response.  The ``**mapping`` given to save_cookie
          may be kept on the middleware (built by the constructor, then followed there) as long as request() only reads
          or copies it.
+  R16.f  a key per middleware: the random key used when none is configured is drawn by a call evaluated each time the
+         constructor runs -- followed through methods, functions, lambdas, partials, parameters and their defaults, class
+         attributes and module-level names; a default-argument expression, a class attribute, a module-level value, a
+         module / class variable filled lazily or a memoised factory is evaluated once per process, so that every middleware
+         built without a key would sign with the same key (a cookie of one is "server-signed" for all others).
+  R16.g  one cookie object, unchanged: every value JSONCookie.unserialize returns is the cookie the dependency verified or an empty
+         one, and nothing is written to it there; request() provides to the endpoint and saves the very object load_cookie
+         returned (no re-binding on the way), writes nothing into it but the expiry stamp, and that only after the endpoint ran;
+         neither the stamp nor the expires / session_expires handed to save_cookie (which the dependency signs into the cookie as
+         _expires) derives from the request other than through the verified cookie.
+  R16.h  what the application stored is written back: should_save (what save_cookie consults), looked up along the MRO of
+         JSONCookie, is the dependency's (= modified) or an override that narrows it only by comparing the contents with a
+         snapshot that shares no mutable object with the live cookie (deepcopy / a serialised form; a shallow copy or an alias
+         is a violation: in-place changes of nested values followed by re-assignment go unnoticed and are never sent); a
+         constructor override hands data / secret_key / new to the dependency unchanged on every path and stores nothing into
+         the cookie; any other member of the dependency's load / save machinery that the class or a mixin replaces is an
+         analysis gap.
 Declined: cryptographic strength, JSON round-trip fidelity, clock behaviour around the expiry instant.
 
 Constructs are recognised by role, not by spelling: values are followed through single-assignment locals and
@@ -37,6 +60,7 @@ import ast
 import codecs
 
 from ..core import AnalysisError, norm, short
+from ..loader import ClassInfo
 from ..astutil import argn, assigned_value
 from ..layers import layers_of_var, layers_of_expr, layers_of_value
 from .common import (cfg_of, fkey, conds, has_cond, cond_texts, stmts_of, walk_body, call_tail, call_name,
@@ -75,7 +99,10 @@ class _Ctx(object):
 def run(rep):
     rep.decide('R16.a malformed cookies cannot raise out of the load; R16.b unquote total, quote total on what unquote returns, '
                'codec agreement; R16.c MAC dominates use; R16.d key plumbing, provide-under-name, save on every path; '
-               'R16.e nothing request() learns from one request is written into an object shared with the next')
+               'R16.e nothing request() learns from one request is written into an object shared with the next; '
+               'R16.f the random default key is drawn per constructed middleware; R16.g one cookie object flows unchanged from '
+               'verification to the endpoint to save_cookie, nothing of the request enters it; R16.h a modified cookie is written back '
+               '(should_save / constructor overrides)')
     rep.decline('cryptographic strength; JSON round-trip fidelity; clock behaviour at the expiry instant')
     rep.assume('binascii.Error and UnicodeDecodeError are ValueError subclasses (CPython)')
     rep.assume('json.loads returns str values with unpaired surrogates for escapes such as "\\ud83d"; json.dumps emits ASCII only '
@@ -87,7 +114,7 @@ def run(rep):
         raise
     except Exception as e:
         raise AnalysisError('cookie module: anchors not recognised (%s: %s)' % (type(e).__name__, e))
-    for group in (rule_a, rule_b, rule_c, rule_d, rule_e):
+    for group in (rule_a, rule_b, rule_c, rule_d, rule_e, rule_g, rule_h):
         rep.guard(_no_crash(group), rep, cx)
 
 
@@ -179,12 +206,43 @@ def rule_a(rep, cx):
     for p in prims:
         if p not in uncovered:
             rep.ok('R16.a', '%s::%s' % (un.key, norm(p)), 'covered by a ValueError handler inside the dependency', dep, p)
+    # decoding primitives clastic itself applies to what the client sent (the string handed to unserialize; in request(), anything
+    # read from the request other than through the loaded cookie): each one under a handler of this function that does not re-raise
+    from ..effects import Flow
+    lst = stmt_of(ck, load_call)
+    cvars = set(t.id for t in getattr(lst, 'targets', []) if isinstance(t, ast.Name))
+    reqs = set(n.id for n in ast.walk(argn(load_call, 'request', 0) or ast.Constant(value=None)) if isinstance(n, ast.Name)) - {'self'}
+    for fi, sources, boundary, skip in ((ju, set(ju.params()[1:2]), set(), []), (rq, reqs, cvars, [lst])):
+        fl = Flow(fi)
+        for n in walk_body(fi.node):
+            prim, operands = None, []
+            if isinstance(n, ast.Call) and call_tail(n) in DECODERS:
+                prim = n
+                operands = ([n.func.value] if isinstance(n.func, ast.Attribute) else []) + list(n.args) + [k.value for k in n.keywords]
+            elif isinstance(n, ast.Assign) and isinstance(n.targets[0], ast.Tuple) and isinstance(n.value, ast.Call) and call_tail(n.value) == 'split' \
+                    and isinstance(n.value.func, ast.Attribute):
+                prim, operands = n.value, [n.value.func.value]
+            if prim is None:
+                continue
+            at = stmt_of(ck, prim)
+            if not any(_derives(fl, o, at, sources, boundary, skip) for o in operands):
+                continue
+            h = protected_by(fi, prim, 'ValueError')
+            ok = h is not None and not any(isinstance(x, ast.Raise) for x in ast.walk(h))
+            rep.check('R16.a', fkey(fi, 'own primitive: %s' % norm(prim)), ok,
+                      'decoding of client data in %s is under a handler that swallows the error' % fi.qualname if ok else
+                      '%s decodes what the client sent outside any handler of %s that swallows ValueError: a malformed cookie / request value '
+                      'makes the request fail with 500 instead of yielding an empty cookie' % (short(prim, 50), fi.qualname), ck, prim)
     rep.floor('R16.a', 3)
 
 
-def _empty_cookie(cx, e):
+COOKIE_CTORS = ('cls', 'JSONCookie')
+MW_COOKIE_CTORS = ('self._cookie_type', 'type(self)._cookie_type', 'self.__class__._cookie_type', 'JSONCookie')
+
+
+def _empty_cookie(cx, e, ctors=COOKIE_CTORS):
     """``cls(<no data>, ...)`` / ``JSONCookie(<no data>, ...)`` (data = first parameter of SecureCookie.__init__)."""
-    if not (isinstance(e, ast.Call) and norm(e.func) in ('cls', 'JSONCookie')):
+    if not (isinstance(e, ast.Call) and norm(e.func) in ctors):
         return False
     if any(isinstance(a, ast.Starred) for a in e.args) or any(k.arg is None for k in e.keywords):
         return False
@@ -295,8 +353,8 @@ def rule_b(rep, cx):
     rep.check('R16.b', '%s::JSONCookie quote/unquote codec' % COOKIE, ok, 'quote() and unquote() use matching halves of one codec (%s / %s)' % (encs, decs) if ok else
               'quote() encodes with %s but unquote() decodes with %s: values whose encoding differs between the two alphabets are silently '
               'dropped (the whole cookie is discarded as unquotable)' % (encs, decs), ck, qf.node)
-    sers_q = [_receiver(qf, jc, c) for c in walk_body(qf.node) if isinstance(c, ast.Call) and call_tail(c) == 'dumps']
-    sers_u = [_receiver(uq, jc, c) for c in walk_body(uq.node) if isinstance(c, ast.Call) and call_tail(c) == 'loads']
+    sers_q = [_receiver(cx, qf, jc, c) for c in walk_body(qf.node) if isinstance(c, ast.Call) and call_tail(c) == 'dumps']
+    sers_u = [_receiver(cx, uq, jc, c) for c in walk_body(uq.node) if isinstance(c, ast.Call) and call_tail(c) == 'loads']
     sers = sers_q + sers_u
     ok = bool(sers_q) and bool(sers_u) and len(set(sers)) == 1
     rep.check('R16.b', '%s::JSONCookie quote/unquote serializer' % COOKIE, ok, 'dumps / loads come from the same serialization module' if ok else
@@ -398,7 +456,7 @@ def _text_class(cx, fl, fi, jc, e, at, depth=0):
         v = lf.value
         if isinstance(v, ast.Call) and isinstance(v.func, ast.Attribute) and v.func.attr in STR_TO_STR and depth < 6:
             c = _text_class(cx, fl, fi, jc, v.func.value, lf.stmt, depth + 1)
-        elif isinstance(v, ast.Call) and call_tail(v) == 'dumps' and _receiver(fi, jc, v) in JSON_MODULES:
+        elif isinstance(v, ast.Call) and call_tail(v) == 'dumps' and _receiver(cx, fi, jc, v) in JSON_MODULES:
             ea = _ensure_ascii(cx, fi, v)
             if ea is None:
                 raise AnalysisError('JSONCookie.quote: cannot decide the ensure_ascii argument of %s' % short(v, 60))
@@ -454,19 +512,42 @@ def _opaque_calls(cx, ci, fi):
         if not isinstance(c, ast.Call):
             continue
         f = c.func
-        if isinstance(f, ast.Attribute) and norm(f.value) in ('cls', 'self', ci.name) and f.attr in ci.methods:
+        if isinstance(f, ast.Attribute) and norm(f.value) in ('cls', 'self', ci.name) and _own_method(cx, ci, f.attr):
             out.append(norm(f))
         elif isinstance(f, ast.Name) and cx.repo.resolve(cx.ck, f.id)[0] == 'func' and cx.repo.resolve(cx.ck, f.id)[1] is cx.ck:
             out.append(f.id)
     return out
 
 
-def _receiver(fi, ci, call):
+def _own_method(cx, ci, name):
+    m = cx.repo.find_method(ci, name)
+    return m is not None and not m.mod.external
+
+
+def _receiver(cx, fi, ci, call):
     """The object a ``X.dumps`` / ``X.loads`` call is made on: a local naming it is followed, a class attribute read
-    through cls / self / the class name is replaced by its value (``cls.serialization_method`` -> ``json``)."""
+    through cls / self / the name of the class or of one of its bases is replaced by the value the attribute has for
+    class ``ci`` -- looked up along its MRO, so that a codec mixin listed before SecureCookie is seen the way Python sees
+    it (``cls.serialization_method`` -> ``json``); a name bound by ``import m as n`` is given as ``m``."""
     e = _follow(fi, call.func.value) if isinstance(call.func, ast.Attribute) else call.func
-    if isinstance(e, ast.Attribute) and norm(e.value) in ('cls', 'self', ci.name) and ci.class_attrs.get(e.attr) is not None:
-        return norm(ci.class_attrs[e.attr])
+    if isinstance(e, ast.Attribute):
+        start = None
+        if norm(e.value) in ('cls', 'self', 'type(self)', 'self.__class__'):
+            start = ci
+        elif isinstance(e.value, ast.Name):
+            start = next((c for c in cx.repo.mro(ci) if isinstance(c, ClassInfo) and c.name == e.value.id), None)
+        if start is not None:
+            owner, v = cx.repo.class_attr(start, e.attr)
+            if owner is not None and isinstance(v, ast.expr):
+                return _module_text(cx, owner.mod, v)
+    return _module_text(cx, fi.mod, e)
+
+
+def _module_text(cx, mod, e):
+    if isinstance(e, ast.Name):
+        kind, _, obj = cx.repo.resolve(mod, e.id)
+        if kind == 'module' and isinstance(obj, str):
+            return obj
     return norm(e)
 
 
@@ -513,11 +594,71 @@ def rule_c(rep, cx):
     upd = [c for c in walk_body(un.node) if isinstance(c, ast.Call) and norm(c.func).endswith('mac.update')]
     rep.check('R16.c', '%s::mac.update' % un.key, bool(upd), 'MAC is computed over the received items' if upd else
               'no mac.update over the received items', dep, un.node)
+    # (facts of the pinned dependency, read from its source like the ones above)
+    from ..effects import Flow
+    fl = Flow(un)
+    digests = [c for c in walk_body(un.node) if isinstance(c, ast.Compare) and any(isinstance(o, (ast.Eq, ast.NotEq, ast.Is, ast.IsNot)) for o in c.ops)
+               and any(isinstance(x, ast.Call) and call_tail(x) in ('digest', 'hexdigest')
+                       for side in [c.left] + c.comparators for lf in fl.leaves(side, stmt_of(dep, c)) for x in ast.walk(lf.value))]
+    rep.check('R16.c', '%s::constant-time comparison' % un.key, not digests, 'the MAC is compared by safe_str_cmp / compare_digest only' if not digests else
+              'the MAC is compared with %s: the comparison time tells the client how many leading bytes of a forged MAC are right' % short(digests[0], 40),
+              dep, digests[0] if digests else un.node)
+    rets = returns_of(un)
+    from ..effects import effects_in
+    filled = set(ef.root for ef in effects_in(un.node) if ef.kind in ('store', 'mutcall'))
+
+    def final_empty(name, v):
+        # ``()`` / None stay empty; an empty dict / list display is the start of what the item stores of the function fill
+        return _is_empty(v) and (isinstance(v, (ast.Tuple, ast.Constant)) or name not in filled)
+    for r in rets:
+        v = r.value
+        built = isinstance(v, ast.Call) and norm(v.func) == 'cls' and not any(isinstance(a, ast.Starred) for a in v.args) and not any(k.arg is None for k in v.keywords)
+        data, key = (argn(v, 'data', 0), argn(v, 'secret_key', 1)) if built else (None, None)
+        ok = built and data is not None and key is not None and norm(key) == un.params()[-1]
+        rep.check('R16.c', '%s::returns %s' % (un.key, norm(v)), ok, 'unserialize returns cls(<items>, secret_key, ..): a cookie of the class it was called on, with the key' if ok else
+                  'SecureCookie.unserialize returns %s, not cls(<items>, secret_key, ..)' % short(v, 40), dep, r)
+        if not ok:
+            continue
+        for lf in fl.leaves(data, r):
+            if final_empty(norm(data), lf.value):
+                continue
+            # a non-empty value of the data reaches the constructor only along paths through the successful MAC comparison
+            ds = [d for d in fl.reaching(norm(data), r) if d.kind == 'assign' and d.value is lf.value] if isinstance(data, ast.Name) else []
+            through = bool(ds) and all(has_cond(list(conds(un, d.stmt)) + list(fl.flow_conds(d, r)), is_mac, True) for d in ds)
+            rep.check('R16.c', '%s::data %s' % (un.key, norm(lf.value)), through,
+                      'the non-empty data %s reaches the returned cookie only through the successful MAC comparison' % short(lf.value, 20) if through else
+                      'data %s can reach the returned cookie without a successful MAC comparison' % short(lf.value, 30), dep, lf.stmt)
+    for e in exp:
+        # orientation: the cookie is emptied when now > _expires
+        l, op, r_ = e.left, e.ops[0], e.comparators[0]
+        now_left = any(isinstance(x, ast.Call) and norm(x.func) in ('time', 'time.time') for x in ast.walk(l))
+        now_right = any(isinstance(x, ast.Call) and norm(x.func) in ('time', 'time.time') for x in ast.walk(r_))
+        expired_when = True if (now_left and isinstance(op, (ast.Gt, ast.GtE))) or (now_right and isinstance(op, (ast.Lt, ast.LtE))) else \
+            False if (now_left and isinstance(op, (ast.Lt, ast.LtE))) or (now_right and isinstance(op, (ast.Gt, ast.GtE))) else None
+        if expired_when is None or len(e.ops) != 1 or now_left == now_right:
+            raise AnalysisError('dependency unserialize: the expiry comparison %s is not followed' % short(e, 40))
+        # the branch taken when the clock is past _expires empties the data, the other one does not
+        iff = [st for st in stmts_of(un.node) if isinstance(st, ast.If) and st.test is e]
+        datas = set(argn(r.value, 'data', 0).id for r in rets if isinstance(r.value, ast.Call) and isinstance(argn(r.value, 'data', 0), ast.Name))
+        if len(iff) != 1 or not datas:
+            raise AnalysisError('dependency unserialize: the statement testing %s is not followed' % short(e, 40))
+        past, not_past = (iff[0].body, iff[0].orelse) if expired_when else (iff[0].orelse, iff[0].body)
+
+        def empties(block):
+            return any(isinstance(st, ast.Assign) and any(isinstance(t, ast.Name) and t.id in datas for t in st.targets) and
+                       isinstance(st.value, (ast.Tuple, ast.Constant)) and _is_empty(st.value) for b_ in block for st in ast.walk(b_))
+        ok = empties(past) and not empties(not_past)
+        rep.check('R16.c', '%s::expiry orientation' % un.key, ok, 'the data is discarded when the clock is past the signed _expires' if ok else
+                  'the comparison %s keeps the data when the clock is past _expires' % short(e, 40), dep, e)
     jc = ck.cls('JSONCookie')
     for nm in ('hash_method', 'serialize', 'load_cookie', 'save_cookie'):
-        ok = nm not in jc.methods and nm not in jc.class_attrs
+        owner, _ = cx.repo.class_attr(jc, nm)       # along the MRO: a mixin listed before SecureCookie overrides as well
+        if owner is None:
+            raise AnalysisError('JSONCookie.%s: not found along the MRO of JSONCookie (dependency class not resolved)' % nm)
+        ok = owner.mod.external
         rep.check('R16.c', '%s::JSONCookie.%s' % (COOKIE, nm), ok, 'JSONCookie inherits %s from SecureCookie' % nm if ok else
-                  'JSONCookie overrides %s (the MAC / cookie plumbing is no longer the dependency\'s)' % nm, ck, jc.node)
+                  'JSONCookie overrides %s%s (the MAC / cookie plumbing is no longer the dependency\'s)'
+                  % (nm, ' through its base %s' % owner.name if owner is not None and owner is not jc else ''), ck, (owner or jc).node)
     sc = cx.sup_calls[0]
     ps = [p for p in ju.params() if p != 'cls']
     plain = not any(isinstance(a, ast.Starred) for a in sc.args) and not any(k.arg is None for k in sc.keywords) \
@@ -593,29 +734,42 @@ def rule_d(rep, cx):
     init = ck.func('SignedCookieMiddleware.__init__')
     mw = ck.cls('SignedCookieMiddleware')
     sk = [s for s in stmts_of(init.node) if isinstance(s, ast.Assign) and any(norm(t) == 'self.secret_key' for t in s.targets)]
+    kf = _KeyFlow(cx, mw, init)
     atoms = []
     for s in sk:
-        atoms += _atoms(init, s.value, set())
-    # every value self.secret_key may get is the constructor argument or a fresh random key (a direct os.urandom call or
-    # a no-argument method of the class that returns one)
-    sources = [(x, _random_calls(mw, x)) for k, x in atoms if k == 'call']
-    ok = bool(sk) and ('param', 'secret_key') in atoms and bool(sources) and all(r for _, r in sources) and \
-        all(k == 'call' or (k, x) == ('param', 'secret_key') for k, x in atoms)
+        atoms += kf.atoms(ck, init, s.value, None, PER_CALL, ())
+    # every value self.secret_key may get is the constructor argument or a random key (os.urandom, written in place or
+    # reached through methods / functions / lambdas / partials / class attributes / module-level names)
+    randoms = []
+    for a in atoms:
+        if a[0] == 'random' and not any(a[1] is b[1] and a[2] == b[2] for b in randoms):
+            randoms.append(a)
+    others = [a for a in atoms if a[0] != 'random' and a[:2] != ('param', 'secret_key')]
+    ok = bool(sk) and any(a[:2] == ('param', 'secret_key') for a in atoms) and bool(randoms) and not others
     rep.check('R16.d', fkey(init, 'self.secret_key'), ok, 'secret key is the constructor argument, else random' if ok else
-              'self.secret_key is not "secret_key or self._get_random()": %s' % (short(sk[0].value) if sk else 'missing'), ck, init.node)
-    rcalls = []
-    for _, r in sources:
-        rcalls += [x for x in (r or []) if not any(x[1] is y[1] for y in rcalls)]
-    if not rcalls and '_get_random' in mw.methods:
-        rcalls = _random_calls(mw, ast.Call(func=ast.Attribute(value=ast.Name(id='self', ctx=ast.Load()), attr='_get_random', ctx=ast.Load()),
-                                            args=[], keywords=[])) or [(mw.methods['_get_random'], None)]
-    for gr, rcall in rcalls:
-        nbytes = cx.fold(rcall.args[0]) if rcall is not None and len(rcall.args) == 1 and not rcall.keywords else None
+              'self.secret_key is not "the secret_key argument, else a random key": %s%s'
+              % (short(sk[0].value) if sk else 'missing', '; it may also be %s' % ', '.join(sorted(set(str(a[1]) for a in others))) if others else ''),
+              ck, init.node)
+    for _, rcall, _, rmod, (rfi, renv) in randoms:
+        gr = rmod.func_of_node(rmod.enclosing_function(rcall)) if rmod.enclosing_function(rcall) is not None else None
+        nbytes = kf.constant(rmod, rfi, rcall.args[0], renv) if len(rcall.args) == 1 and not rcall.keywords else None
         ok = isinstance(nbytes, int) and not isinstance(nbytes, bool) and nbytes >= 16
-        rep.check('R16.d', fkey(gr) if gr is not init else fkey(init, 'random key'), ok,
-                  'random key is >= 16 bytes of os.urandom' if ok else 'random key is not os.urandom(>=16)', ck, rcall or gr.node)
-    if not rcalls:
+        rep.check('R16.d', fkey(init, 'random key') if gr is None or gr is init else fkey(gr), ok,
+                  'random key is >= 16 bytes of os.urandom' if ok else 'random key is not os.urandom(>=16)', rmod, rcall)
+    if not randoms:
         rep.fail('R16.d', fkey(init, 'random key'), 'no os.urandom source for the default secret key', ck, init.node)
+    # R16.f: a key per middleware.  The random key is the *server's secret of this middleware*: it must be drawn by a call
+    # evaluated each time the constructor runs.  A default-argument expression, a class attribute, a module-level value or a
+    # memoised factory is evaluated once per process: every middleware built without a key then signs with the same key.
+    rep.rule('R16.f', 'the random default key is drawn per construction: not a default-argument expression, class attribute, '
+                      'module-level value or memoised factory')
+    for _, rcall, when, rmod, _ in randoms:
+        rep.check('R16.f', fkey(init, 'random key per construction: %s' % norm(rcall)), when == PER_CALL,
+                  '%s is evaluated each time a middleware is constructed' % short(rcall, 40) if when == PER_CALL else
+                  '%s is %s: it is evaluated once per process, so every SignedCookieMiddleware constructed without secret_key signs and '
+                  'verifies with the SAME key -- a cookie minted by one middleware (another application / stack, where the client may store '
+                  'what it likes) carries a valid signature for every other one and is presented with its attacker-chosen contents '
+                  'instead of as an empty cookie' % (short(rcall, 40), when), rmod, rcall)
     pv = [s for s in stmts_of(init.node) if isinstance(s, ast.Assign) and any(norm(t) == 'self.provides' for t in s.targets)]
     ok = len(pv) == 1 and _only_arg_name(init, _follow(init, pv[0].value)) and not assigned_value(init.node, 'arg_name')
     rep.check('R16.d', fkey(init, 'self.provides'), ok, 'provides is exactly (arg_name,)' if ok else 'provides is not (arg_name,)', ck, init.node)
@@ -645,6 +799,15 @@ def rule_d(rep, cx):
               'save_cookie on the next() result can be skipped', ck, saves[0] if saves else rq.node)
     ok = all(isinstance(r.value, ast.Name) and r.value.id in nd for r in returns_of(rq)) and returns_of(rq)
     rep.check('R16.d', fkey(rq, 'return'), bool(ok), 'returns the next() result' if ok else 'does not return the next() result', ck, rq.node)
+    if ok and saves:
+        # ... and the names still hold it where they are used: the response the cookie is saved on is the one returned
+        from ..effects import Flow
+        fl = Flow(rq)
+        uses = [(argn(c, 'response', 0), stmt_of(ck, c)) for c in saves] + [(r.value, r) for r in returns_of(rq)]
+        stale = [(e, at) for e, at in uses if not (isinstance(e, ast.Name) and _holds_next_result(fl, e.id, at, nd, 0))]
+        rep.check('R16.d', fkey(rq, 'one response'), not stale, 'the response the cookie is saved on and the response returned are the next() result' if not stale else
+                  '%s no longer holds the next() result at %s (re-bound in between): the Set-Cookie header is put on a response that is not the one returned'
+                  % (norm(stale[0][0]), short(stale[0][1], 40)), ck, stale[0][1] if stale else rq.node)
     for s, absent_implied in _stamps(cx, rq, cvar):
         cs = conds(rq, s)
         excluded = _excluded_expiry(cx, rq, cs)
@@ -655,54 +818,384 @@ def rule_d(rep, cx):
                   '_expires is stamped unconditionally / for non-numeric expiry: %s' % '; '.join(cond_texts(cs)), ck, s)
     ok = bool(saves) and all(_saved_under(cx, rq, c) == 'self.cookie_name' for c in saves)
     rep.check('R16.d', fkey(rq, 'save key'), ok, 'cookie is saved under self.cookie_name' if ok else 'cookie is not saved under self.cookie_name', ck, rq.node)
+    for s, _ in _stamps(cx, rq, cvar):
+        v = _stamp_value(cx, s)
+        if v is None:
+            continue
+        pos, neg, other = _sum_terms(cx, rq, v, 1, 0)
+        kinds = [k for k, _ in pos]
+        if other:
+            raise AnalysisError('SignedCookieMiddleware.request: the stamped expiry %s has a term that is not followed (%s)' % (short(v, 50), short(other[0], 40)))
+        ok = not neg and sorted(kinds) == ['clock', 'expiry']
+        why = 'the stamp is the clock plus the configured expiry' if ok else \
+            ('%s is subtracted' % short(neg[0][1], 30) if neg else
+             'no clock term: a number of seconds is stamped as an absolute time (long past: the cookie is discarded on every load)' if 'clock' not in kinds else
+             'no expiry term: the cookie expires the moment it is issued' if 'expiry' not in kinds else 'clock / expiry counted more than once')
+        rep.check('R16.d', fkey(rq, '_expires stamp value'), ok, why if ok else 'the stamped expiry %s is not "now + self.expiry": %s' % (short(v, 50), why), ck, s)
     rep.floor('R16.d', 9)
 
 
-def _atoms(fi, e, seen):
-    """The values an expression may evaluate to, as far as ``or`` / conditional expressions / locals go:
-    [('param', name) | ('call', call node) | ('expr', text)]."""
-    if isinstance(e, ast.BoolOp) and isinstance(e.op, ast.Or):
-        out = []
-        for v in e.values:
-            out += _atoms(fi, v, seen)
-        return out
-    if isinstance(e, ast.IfExp):
-        return _atoms(fi, e.body, seen) + _atoms(fi, e.orelse, seen)
-    if isinstance(e, ast.Name):
-        if e.id in seen:
-            return []
-        out = []
-        if e.id in fi.params():
-            out.append(('param', e.id))
-        defs = assigned_value(fi.node, e.id)
-        if not defs and not out:
-            return [('expr', e.id)]
-        for st, v, idx in defs:
-            if idx is not None or not isinstance(st, (ast.Assign, ast.AnnAssign)):
-                out.append(('expr', short(st, 40)))
-            else:
-                out += _atoms(fi, v, seen | {e.id})
-        return out
-    if isinstance(e, ast.Call):
-        return [('call', e)]
-    return [('expr', norm(e))]
+def _holds_next_result(fl, name, at, nd, depth):
+    """Every definition of local ``name`` that reaches statement ``at`` binds the value of the next() call (directly, or by
+    copying a local that holds it there)."""
+    from .c15 import is_next_call
+    ds = fl.reaching(name, at) if name in fl.defs else []
+    if not ds or depth > 6:
+        return False
+    for d in ds:
+        if d.kind != 'assign' or d.idx is not None:
+            return False
+        if is_next_call(d.value):
+            continue
+        if isinstance(d.value, ast.Name) and d.value.id in nd and _holds_next_result(fl, d.value.id, d.stmt, nd, depth + 1):
+            continue
+        return False
+    return True
 
 
 RANDOM_BYTES = ('os.urandom', 'secrets.token_bytes')
+PER_CALL = 'per call'
+MEMOISERS = ('lru_cache', 'cache', 'cached', 'memoize', 'memoized', 'memoise', 'cached_property', 'cachedproperty')
+PARTIALS = ('functools.partial', 'partial')
+KEY_ENCODERS = ('hexlify', 'b2a_hex', 'b64encode', 'urlsafe_b64encode', 'standard_b64encode', 'hex', 'bytes', 'bytearray')
+SELF_TEXTS = ('self', 'cls', 'type(self)', 'self.__class__')
 
 
-def _random_calls(ci, call):
-    """[(function it is written in, the os.urandom(..) call)] a call stands for: the call itself, or -- for a
-    no-argument ``self.m()`` -- the value every return of method ``m`` gives.  None: not a random-bytes source."""
-    if norm(call.func) in RANDOM_BYTES:
-        return [(ci.methods['__init__'], call)]
-    f = call.func
-    if isinstance(f, ast.Attribute) and norm(f.value) == 'self' and f.attr in ci.methods and not call.args and not call.keywords:
-        m = ci.methods[f.attr]
-        rv = [_follow(m, r.value) if r.value is not None else None for r in returns_of(m)]
-        if rv and all(isinstance(v, ast.Call) and norm(v.func) in RANDOM_BYTES for v in rv):
-            return [(m, v) for v in rv]
+class _KeyFlow(object):
+    """Where the value the constructor stores as ``self.secret_key`` comes from, and *when* each source is evaluated.
+
+    ``atoms(mod, fi, e, env, when, seen)`` -> [('param', name, when, mod) | ('random', call, when, mod) | ('expr', text, when, mod)]
+    for the values expression ``e`` may have, as far as ``or`` / conditional expressions / locals / parameters and their
+    defaults / class attributes / module-level names / calls of functions, methods, lambdas and partials of the analysed
+    tree go.  ``fi`` is the function the expression is written in (None: class or module level), ``env`` the bindings of
+    that function's parameters ({name: (expr, mod, fi, env, when)}; None for the constructor itself, whose parameters are
+    the configuration), ``when`` is PER_CALL or the text saying why the expression is evaluated only once."""
+
+    def __init__(self, cx, mw, init):
+        self.cx, self.repo, self.mw, self.init = cx, cx.repo, mw, init
+
+    def atoms(self, mod, fi, e, env, when, seen):
+        if len(seen) > 16:
+            return [('expr', short(e, 40), when, mod)]
+        rec = lambda x: self.atoms(mod, fi, x, env, when, seen)
+        if isinstance(e, ast.BoolOp) and isinstance(e.op, ast.Or):
+            return [a for v in e.values for a in rec(v)]
+        if isinstance(e, ast.IfExp):
+            return rec(e.body) + rec(e.orelse)
+        if isinstance(e, ast.NamedExpr):
+            return rec(e.value)
+        if isinstance(e, ast.Name):
+            return self._name(mod, fi, e, env, when, seen)
+        if isinstance(e, ast.Attribute):
+            return self._attribute(mod, fi, e, env, when, seen)
+        if isinstance(e, ast.Call):
+            return self._call(mod, fi, e, env, when, seen)
+        return [('expr', short(e, 40), when, mod)]
+
+    def constant(self, mod, fi, e, env, depth=0):
+        """Folded value of an argument expression written in ``fi``: a parameter stands for the expression it is bound to
+        (or its default), a once-bound local for its value, anything else is folded at module level."""
+        if isinstance(e, ast.Name) and fi is None and env and e.id in env and depth < 6:
+            x, xmod, xfi, xenv, _ = env[e.id]
+            return self.constant(xmod, xfi, x, xenv, depth + 1)
+        if isinstance(e, ast.Name) and fi is not None and depth < 6:
+            if e.id in _all_params(fi.node) and not assigned_value(fi.node, e.id):
+                if env is None:
+                    return _NOFOLD
+                if e.id in env:
+                    x, xmod, xfi, xenv, _ = env[e.id]
+                    return self.constant(xmod, xfi, x, xenv, depth + 1)
+                return _NOFOLD
+            defs = _value_defs(fi, e.id)
+            if defs and len(defs) == 1:
+                return self.constant(mod, fi, defs[0][1], env, depth + 1)
+            if defs or defs is None:
+                return _NOFOLD
+        if isinstance(e, ast.Attribute) and depth < 6:
+            # a class-level constant read through self / cls / the class name (never bound on the instance)
+            ci = self._class_of(mod, fi, e.value)
+            if ci is not None:
+                owner, v = self.repo.class_attr(ci, e.attr)
+                bound = any(isinstance(t, ast.Attribute) and t.attr == e.attr and isinstance(t.ctx, ast.Store)
+                            for c in self.repo.mro(ci) if isinstance(c, ClassInfo) and not c.mod.external
+                            for m in c.methods.values() for t in ast.walk(m.node))
+                if owner is not None and isinstance(v, ast.expr) and not bound:
+                    return self.constant(owner.mod, None, v, None, depth + 1)
+            return _NOFOLD
+        return self.repo.try_fold(e, mod, _NOFOLD)
+
+    # -- names
+    def _name(self, mod, fi, e, env, when, seen):
+        key = (fi.key if fi is not None else mod.name, e.id, id(env))
+        if key in seen:
+            return []
+        seen = seen + (key,)
+        if fi is None and env and e.id in env:        # a parameter of a lambda
+            x, xmod, xfi, xenv, xwhen = env[e.id]
+            return self.atoms(xmod, xfi, x, xenv, xwhen, seen)
+        if fi is not None:
+            if e.id in _globals_of(fi):
+                # a module-level variable the function (re)binds: one value for the process, whoever computed it
+                once = 'kept in the module-level variable %s' % e.id
+                out = [a for _, v, idx in assigned_value(fi.node, e.id) if idx is None and isinstance(v, ast.expr)
+                       for a in self.atoms(mod, fi, v, env, once, seen)]
+                return out + self._module_name(mod, e, once, seen)
+            ps = _all_params(fi.node)
+            defs = assigned_value(fi.node, e.id)
+            out = []
+            if e.id in ps:
+                if env is None:
+                    out.append(('param', e.id, when, mod))
+                    d = _default_of(fi.node, e.id)
+                    v = self.repo.try_fold(d, mod, _NOFOLD) if d is not None else None
+                    if d is not None and (v is _NOFOLD or v):
+                        # a default that is not None / '' / b'': what the parameter is when no key is configured
+                        out += self.atoms(mod, None, d, None, _once_default(e.id, fi), seen)
+                elif e.id in env:
+                    x, xmod, xfi, xenv, xwhen = env[e.id]
+                    out += self.atoms(xmod, xfi, x, xenv, xwhen, seen)
+                else:
+                    out.append(('expr', e.id, when, mod))
+            for st, v, idx in defs:
+                if idx is not None or not isinstance(st, (ast.Assign, ast.AnnAssign)):
+                    out.append(('expr', short(st, 40), when, mod))
+                else:
+                    out += self.atoms(mod, fi, v, env, when, seen)
+            if out or e.id in ps or defs:
+                return out
+        return self._module_name(mod, e, when, seen)
+
+    def _module_name(self, mod, e, when, seen):
+        kind, m, obj = self.repo.resolve(mod, e.id)
+        if kind == 'value' and m is not None and obj:
+            once = when if when != PER_CALL else 'the module-level value %s (evaluated once, when the module is imported)' % e.id
+            out = []
+            for v in obj:
+                out += self.atoms(m, None, v, None, once, seen) if isinstance(v, ast.expr) else [('expr', e.id, once, m)]
+            return out
+        return [('expr', e.id, when, mod)]
+
+    # -- attributes of the instance / the class
+    def _class_of(self, mod, fi, recv):
+        if norm(recv) in SELF_TEXTS:
+            return fi.cls if fi is not None and fi.cls is not None else None
+        if isinstance(recv, ast.Name):
+            r = self.repo.resolve_class(mod, recv)
+            return r if isinstance(r, ClassInfo) else None
+        return None
+
+    def _attribute(self, mod, fi, e, env, when, seen):
+        ci = self._class_of(mod, fi, e.value)
+        if ci is None:
+            return [('expr', norm(e), when, mod)]
+        key = (ci.key, e.attr)
+        if key in seen:
+            return []
+        seen = seen + (key,)
+        out = []
+        classes = [c for c in self.repo.mro(ci) if isinstance(c, ClassInfo) and not c.mod.external]
+        for c in classes:
+            for m in c.methods.values():
+                for st in stmts_of(m.node):
+                    if not isinstance(st, (ast.Assign, ast.AnnAssign)) or st.value is None:
+                        continue
+                    for t in (st.targets if isinstance(st, ast.Assign) else [st.target]):
+                        if not (isinstance(t, ast.Attribute) and t.attr == e.attr):
+                            continue
+                        rt = norm(t.value)
+                        if rt == 'self' and 'classmethod' not in [norm(d) for d in m.node.decorator_list]:
+                            if norm(e.value) == 'self' and m is fi:
+                                out += self.atoms(mod, fi, st.value, env, when, seen)      # bound by this constructor run
+                            else:
+                                out.append(('expr', '%s bound in %s()' % (norm(t), m.name), when, m.mod))
+                        elif rt in SELF_TEXTS or rt in [x.name for x in classes]:
+                            once = when if when != PER_CALL else \
+                                'kept in the class attribute %s.%s (assigned in %s(); one value for every instance)' % (c.name, e.attr, m.name)
+                            out += self.atoms(m.mod, m, st.value, env if m is fi else {}, once, seen)
+        owner, v = self.repo.class_attr(ci, e.attr)
+        if owner is not None and isinstance(v, ast.expr) and not owner.mod.external:
+            once = when if when != PER_CALL else \
+                'the value of the class attribute %s.%s (evaluated once, when the class is defined; one value for every instance)' % (owner.name, e.attr)
+            out += self.atoms(owner.mod, None, v, None, once, seen)
+        return out or [('expr', norm(e), when, mod)]
+
+    # -- calls
+    def _is_random(self, mod, f):
+        if norm(f) in RANDOM_BYTES:
+            return True
+        if isinstance(f, ast.Name):
+            kind, m, obj = self.repo.resolve(mod, f.id)
+            if kind == 'external' and obj in RANDOM_BYTES:
+                return True
+            if kind == 'value' and obj and len(obj) == 1 and isinstance(obj[0], ast.Attribute):
+                return self._is_random(m, obj[0])
+        if isinstance(f, ast.Attribute) and isinstance(f.value, ast.Name):
+            kind, m, obj = self.repo.resolve(mod, f.value.id)
+            if kind == 'module' and isinstance(obj, str) and '%s.%s' % (obj, f.attr) in RANDOM_BYTES:
+                return True
+        return False
+
+    def _is_modref(self, mod, e):
+        return isinstance(e, ast.Name) and self.repo.resolve(mod, e.id)[0] == 'module'
+
+    def _call(self, mod, fi, e, env, when, seen):
+        f = e.func
+        if self._is_random(mod, f):
+            return [('random', e, when, mod, (fi, env))]
+        if any(isinstance(a, ast.Starred) for a in e.args) or any(k.arg is None for k in e.keywords):
+            return [('expr', short(e, 40), when, mod)]
+        tgt = self._callable(mod, fi, f, env, 0)
+        if tgt is None:
+            # a pure re-encoding of random bytes (hexlify, b64encode, .hex(), bytes()) is as random as its argument
+            inner = None
+            if call_tail(e) in KEY_ENCODERS and not e.keywords:
+                if isinstance(f, ast.Attribute) and not e.args and not self._is_modref(mod, f.value):
+                    inner = f.value
+                elif len(e.args) == 1:
+                    inner = e.args[0]
+            if inner is not None:
+                sub = self.atoms(mod, fi, inner, env, when, seen)
+                if sub and all(a[0] == 'random' for a in sub):
+                    return sub
+            return [('expr', short(e, 40), when, mod)]
+        kind, obj, omod, skip_first, per_instance = tgt
+        if kind == 'partial':
+            # functools.partial(os.urandom, 20): the partial object is built once, the random call runs when IT is called
+            synth = ast.copy_location(ast.Call(func=obj.args[0], args=list(obj.args[1:]) + list(e.args),
+                                               keywords=list(obj.keywords) + list(e.keywords)), obj)
+            for n in ast.walk(synth):
+                if not hasattr(n, 'lineno'):
+                    ast.copy_location(n, obj)
+            omod.parents.setdefault(synth, omod.parents.get(obj))
+            return [('random', synth, when, omod, (None, None))]
+        if kind == 'lambda':
+            node, cfi, key, name = obj, None, 'lambda@%s:%s' % (omod.name, obj.lineno), 'the lambda'
+            rets = [obj.body]
+        else:
+            node, cfi, key, name = obj.node, obj, obj.key, obj.name + '()'
+            rets = [r.value for r in returns_of(obj)]
+            memo = [d for d in obj.node.decorator_list if _dec_name(d) in MEMOISERS]
+            odd = [d for d in obj.node.decorator_list if _dec_name(d) not in MEMOISERS + ('staticmethod', 'classmethod')]
+            if odd:
+                raise AnalysisError('SignedCookieMiddleware.__init__: the key comes from %s, whose decorator %s is not followed'
+                                    % (name, norm(odd[0])))
+            if memo and not per_instance and when == PER_CALL:
+                if e.args or e.keywords:
+                    raise AnalysisError('SignedCookieMiddleware.__init__: the key comes from the memoised %s called with arguments: '
+                                        'how many distinct keys there are is not decided' % name)
+                when = 'computed inside %s, which is memoised (@%s): its body runs once, every later call returns the first key' % (name, norm(memo[0]))
+        if key in [k for k in seen if isinstance(k, str)]:
+            return []
+        seen = seen + (key,)
+        cenv = _bind_call(node, e, skip_first, (mod, fi, env, when), omod, name)
+        if cenv is None:
+            return [('expr', short(e, 40), when, mod)]
+        out = []
+        for r in rets:
+            out += self.atoms(omod, cfi, r, cenv, when, seen) if r is not None else [('expr', 'None', when, omod)]
+        return out or [('expr', '%s returns nothing' % name, when, omod)]
+
+    def _callable(self, mod, fi, f, env, depth):
+        """('func', FuncInfo, mod, skip first parameter, keyed by the instance) | ('lambda', Lambda, mod, False, False) |
+        ('partial', the partial(..) call, mod, False, False) for the callable expression ``f`` denotes; None: not followed."""
+        if depth > 6:
+            return None
+        if isinstance(f, ast.Lambda):
+            return ('lambda', f, mod, False, False)
+        if isinstance(f, ast.Call) and norm(f.func) in PARTIALS and f.args and self._is_random(mod, f.args[0]) \
+                and not any(isinstance(a, ast.Starred) for a in f.args) and not any(k.arg is None for k in f.keywords):
+            return ('partial', f, mod, False, False)
+        if isinstance(f, ast.Attribute):
+            ci = self._class_of(mod, fi, f.value)
+            m = self.repo.find_method(ci, f.attr) if ci is not None else None
+            if m is None or m.mod.external:
+                return None
+            decs = [norm(d) for d in m.node.decorator_list]
+            bound = norm(f.value) in SELF_TEXTS or 'classmethod' in decs
+            return ('func', m, m.mod, bound and 'staticmethod' not in decs, norm(f.value) == 'self' and 'staticmethod' not in decs and 'classmethod' not in decs)
+        if not isinstance(f, ast.Name):
+            return None
+        if fi is not None and f.id not in _globals_of(fi):
+            if f.id in _all_params(fi.node):
+                if assigned_value(fi.node, f.id):
+                    return None
+                if env is None:
+                    d = _default_of(fi.node, f.id)        # the callable used when the configuration gives none
+                    return self._callable(mod, None, d, None, depth + 1) if d is not None else None
+                if f.id in env:
+                    x, xmod, xfi, xenv, _ = env[f.id]
+                    return self._callable(xmod, xfi, x, xenv, depth + 1)
+                return None
+            defs = assigned_value(fi.node, f.id)
+            if defs:
+                if len(defs) == 1 and defs[0][2] is None and isinstance(defs[0][0], (ast.Assign, ast.AnnAssign)):
+                    return self._callable(mod, fi, defs[0][1], env, depth + 1)
+                return None
+        kind, m, obj = self.repo.resolve(mod, f.id)
+        if kind == 'func' and m is not None and not m.external:
+            return ('func', obj, m, False, False)
+        if kind == 'value' and m is not None and obj and len(obj) == 1 and isinstance(obj[0], ast.expr):
+            return self._callable(m, None, obj[0], None, depth + 1)
+        return None
+
+
+def _globals_of(fi):
+    return set(n for st in stmts_of(fi.node) if isinstance(st, ast.Global) for n in st.names)
+
+
+def _all_params(fnode):
+    a = fnode.args
+    return [x.arg for x in a.posonlyargs + a.args + a.kwonlyargs] + [x.arg for x in (a.vararg, a.kwarg) if x is not None]
+
+
+def _default_of(fnode, name):
+    a = fnode.args
+    pos = a.posonlyargs + a.args
+    for p_, d_ in list(zip(pos[len(pos) - len(a.defaults):], a.defaults)) + list(zip(a.kwonlyargs, a.kw_defaults)):
+        if p_.arg == name:
+            return d_
     return None
+
+
+def _once_default(pname, fi_or_name):
+    name = fi_or_name if isinstance(fi_or_name, str) else fi_or_name.name + '()'
+    return 'the default-argument expression of parameter %s of %s (evaluated once, when the function is defined)' % (pname, name)
+
+
+def _dec_name(d):
+    if isinstance(d, ast.Call):
+        d = d.func
+    return d.attr if isinstance(d, ast.Attribute) else d.id if isinstance(d, ast.Name) else norm(d)
+
+
+def _bind_call(fnode, call, skip_first, caller, omod, name):
+    """{parameter: (expr, mod, fi, env, when)} for a call of the function / lambda ``fnode``: arguments are expressions of
+    the caller (evaluated when the call is), parameters left out get their default expression, which belongs to the
+    module level of the callee and was evaluated once.  None: the call does not bind the plain way."""
+    a = fnode.args
+    pos = [x.arg for x in a.posonlyargs + a.args]
+    if skip_first:
+        if not pos:
+            return None
+        pos = pos[1:]
+    names = pos + [x.arg for x in a.kwonlyargs]
+    if len(call.args) > len(pos):
+        return None
+    mod, fi, env, when = caller
+    cenv = {}
+    for p_, x in zip(pos, call.args):
+        cenv[p_] = (x, mod, fi, env, when)
+    for k in call.keywords:
+        if k.arg not in names or k.arg in cenv:
+            return None
+        cenv[k.arg] = (k.value, mod, fi, env, when)
+    for p_ in names:
+        if p_ not in cenv:
+            d = _default_of(fnode, p_)
+            if d is None:
+                return None
+            cenv[p_] = (d, omod, None, None, when if when != PER_CALL else _once_default(p_, name))
+    return cenv
 
 
 def _only_arg_name(fi, e):
@@ -822,6 +1315,67 @@ def _request_time_text(mw, init, v, at):
                 if set(id(d.stmt) for d in fl.reaching(v.id, st)) == mine and stable(st.targets[0].attr):
                     return norm(st.targets[0])
     return norm(v) + ' (constructor value)'
+
+
+NUMERIC_WRAPPERS = ('int', 'float', 'round')
+CLOCKS = ('time.time',)
+
+
+def _stamp_value(cx, s):
+    """The value expression a stamp statement stores under the expiry key; None when it has none of its own."""
+    if isinstance(s, (ast.Assign, ast.AnnAssign)):
+        return s.value
+    c = s.value if isinstance(s, ast.Expr) else None
+    if isinstance(c, ast.Call) and isinstance(c.func, ast.Attribute):
+        if c.func.attr == 'setdefault' and len(c.args) == 2:
+            return c.args[1]
+        if c.func.attr == 'set_expires' and len(c.args) == 1 and not c.keywords:
+            return c.args[0]
+        if c.func.attr == 'update':
+            for k in c.keywords:
+                if k.arg == EXPIRES:
+                    return k.value
+            for a in c.args:
+                if isinstance(a, ast.Dict):
+                    for k, v in zip(a.keys, a.values):
+                        if k is not None and cx.fold(k) == EXPIRES:
+                            return v
+    return None
+
+
+def _is_clock(cx, f):
+    if norm(f) in CLOCKS:
+        return True
+    if isinstance(f, ast.Name):
+        kind, _, obj = cx.repo.resolve(cx.ck, f.id)
+        return kind == 'external' and obj in CLOCKS
+    if isinstance(f, ast.Attribute) and isinstance(f.value, ast.Name):
+        kind, _, obj = cx.repo.resolve(cx.ck, f.value.id)
+        return kind == 'module' and isinstance(obj, str) and '%s.%s' % (obj, f.attr) in CLOCKS
+    return False
+
+
+def _sum_terms(cx, fi, e, sign, depth):
+    """(positive terms, negative terms, terms not followed) of a sum; a term is ('clock' | 'expiry', node)."""
+    e = _follow(fi, e)
+    if depth > 8:
+        return [], [], [e]
+    if isinstance(e, ast.BinOp) and isinstance(e.op, (ast.Add, ast.Sub)):
+        p1, n1, o1 = _sum_terms(cx, fi, e.left, sign, depth + 1)
+        p2, n2, o2 = _sum_terms(cx, fi, e.right, sign if isinstance(e.op, ast.Add) else -sign, depth + 1)
+        return p1 + p2, n1 + n2, o1 + o2
+    if isinstance(e, ast.UnaryOp) and isinstance(e.op, (ast.USub, ast.UAdd)):
+        return _sum_terms(cx, fi, e.operand, -sign if isinstance(e.op, ast.USub) else sign, depth + 1)
+    if isinstance(e, ast.Call) and isinstance(e.func, ast.Name) and e.func.id in NUMERIC_WRAPPERS and len(e.args) == 1 and not e.keywords:
+        return _sum_terms(cx, fi, e.args[0], sign, depth + 1)
+    kind = None
+    if isinstance(e, ast.Call) and not e.args and not e.keywords and _is_clock(cx, e.func):
+        kind = 'clock'
+    elif norm(e) == 'self.expiry':
+        kind = 'expiry'
+    if kind is None:
+        return [], [], [e]
+    return ([(kind, e)], [], []) if sign > 0 else ([], [(kind, e)], [])
 
 
 def _stamps(cx, fi, cvar):
@@ -1140,3 +1694,361 @@ def _shared_name(act, obj, node):
         if src:
             return '%s (= %s, not a copy)' % (txt, ' / '.join(sorted(set(src))))
     return txt
+
+
+# ---------------------------------------------------------------------------------------------- R16.g
+# The cookie object the endpoint gets "contains exactly the data the application stored": between the dependency's
+# verification and the endpoint, and between the endpoint and save_cookie, clastic handles ONE object and adds nothing of
+# its own to it except the expiry stamp -- and what it stamps (and hands to save_cookie as the expiry, which the dependency
+# signs into the cookie as _expires) is the server's: configuration and clock, never something read from the request.
+def _derives(fl, e, at, sources, boundary, skip_stmts, seen=None):
+    """Does the value of ``e`` (evaluated at statement ``at``) derive from one of the parameters ``sources`` other than through
+    the locals in ``boundary`` / the definitions in ``skip_stmts`` (the verified cookie)?"""
+    seen = set() if seen is None else seen
+    if e is None:
+        return False
+    for n in ast.walk(e):
+        if not (isinstance(n, ast.Name) and isinstance(n.ctx, ast.Load)) or n.id in boundary:
+            continue
+        ds = fl.reaching(n.id, at) if n.id in fl.defs else None
+        if n.id in sources and (ds is None or any(d.kind == 'entry' for d in ds)):
+            return True
+        for d in ds or []:
+            if d.stmt is None or any(d.stmt is x for x in skip_stmts) or (n.id, id(d.stmt)) in seen:
+                continue
+            seen.add((n.id, id(d.stmt)))
+            src = d.value if d.value is not None else getattr(d.stmt, 'value', None)
+            if _derives(fl, src, d.stmt, sources, boundary, skip_stmts, seen):
+                return True
+    return False
+
+
+def _cookie_writes(fi, names):
+    """Effects of ``fi`` that change the contents of the mapping held in one of the locals ``names``: [(effect, statement)]."""
+    from ..effects import effects_in
+    out = []
+    for ef in effects_in(fi.node):
+        if ef.root not in names:
+            continue
+        if (ef.kind == 'mutcall' and isinstance(ef.target, ast.Name)) or (ef.kind in ('store', 'delete') and isinstance(ef.target, ast.Subscript)
+                                                                        and isinstance(ef.target.value, ast.Name)):
+            out.append((ef, ef.node if isinstance(ef.node, ast.stmt) else stmt_of(fi.mod, ef.node)))
+        elif isinstance(ef.node, ast.Call) and isinstance(ef.node.func, ast.Attribute) and ef.node.func.attr == 'set_expires':
+            out.append((ef, stmt_of(fi.mod, ef.node)))
+    for c in walk_body(fi.node):
+        if isinstance(c, ast.Call) and isinstance(c.func, ast.Attribute) and c.func.attr == 'set_expires' and norm(c.func.value) in names \
+                and not any(c is ef.node for ef, _ in out):
+            from ..effects import Effect
+            out.append((Effect('mutcall', c.func.value, c, 'set_expires'), stmt_of(fi.mod, c)))
+    return out
+
+
+def rule_g(rep, cx):
+    from ..effects import Flow
+    ck, ju, rq = cx.ck, cx.ju, cx.rq
+    rep.rule('R16.g', 'one cookie object, unchanged: unserialize returns the verified cookie or an empty one and does not write to it; request() '
+                      'provides and saves the object load_cookie returned, stores nothing in it but the expiry stamp after the endpoint, and takes '
+                      'neither the stamp nor the signed expiry from the request')
+    # -- JSONCookie.unserialize
+    fl = Flow(ju)
+    sc = cx.sup_calls[0]
+    returned = set()
+    for r in returns_of(ju):
+        vals = fl.leaves(r.value, r) if r.value is not None else []
+        for n in ast.walk(r.value) if r.value is not None else []:
+            if isinstance(n, ast.Name):
+                returned.add(n.id)
+        bad = [lf.value for lf in vals if not (lf.value is sc or _empty_cookie(cx, lf.value))]
+        ok = bool(vals) and not bad
+        rep.check('R16.g', fkey(ju, 'returns: %s' % norm(r.value)), ok,
+                  'returns the cookie the dependency verified, or an empty one' if ok else
+                  'unserialize can return %s: a cookie whose contents did not pass the dependency\'s MAC / expiry check (or no cookie at all)'
+                  % (short(bad[0], 50) if bad else 'None'), ck, r)
+    returned -= set(ju.params())
+    for ef, st in _cookie_writes(ju, returned):
+        rep.fail('R16.g', fkey(ju, 'writes: %s' % norm(ef.node)), '%s changes the cookie after verification: what is presented is no longer exactly '
+                 'what was signed' % short(ef.node, 60), ck, ef.node)
+    # -- SignedCookieMiddleware.request
+    fl = Flow(rq)
+    cfg = cfg_of(rq)
+    lcall = cx.load_calls[0]
+    lst = stmt_of(ck, lcall)
+    cvar = lst.targets[0].id if isinstance(lst, ast.Assign) and lst.value is lcall and len(lst.targets) == 1 and isinstance(lst.targets[0], ast.Name) else None
+    ncalls = [c for c in walk_body(rq.node) if isinstance(c, ast.Call) and isinstance(c.func, ast.Name) and c.func.id == 'next']
+    saves = [c for c in walk_body(rq.node) if isinstance(c, ast.Call) and call_tail(c) == 'save_cookie']
+    if cvar is None or len(ncalls) != 1 or not saves:
+        raise AnalysisError('SignedCookieMiddleware.request: load / next / save_cookie not found in the expected roles')
+    nst = stmt_of(ck, ncalls[0])
+    names = set(k for k in fl.aliases(cvar) if '.' not in k)
+    for what, c in [('provided', ncalls[0])] + [('saved', c) for c in saves]:
+        at = stmt_of(ck, c)
+        used = [n.id for n in ast.walk(c) if isinstance(n, ast.Name) and n.id in names] or [cvar]
+        ds = [d for nm in used for d in fl.reaching(nm, at)]
+        # (or, where the middleware itself guards the load: the empty cookie of the configured type, with the middleware's key)
+        ok = bool(ds) and all(d.kind == 'assign' and (d.stmt is lst or (isinstance(d.value, ast.Name) and d.value.id in names) or
+                                                      (_empty_cookie(cx, d.value, MW_COOKIE_CTORS) and norm(argn(d.value, 'secret_key', 1)) == 'self.secret_key'))
+                              for d in ds)
+        rep.check('R16.g', fkey(rq, '%s object' % what), ok, 'the cookie %s is the object load_cookie returned' % what if ok else
+                  'the cookie %s can be another object than the one load_cookie returned (re-bound: %s)'
+                  % (what, '; '.join(short(d.stmt, 40) if d.stmt is not None else 'unbound' for d in ds if d.stmt is not lst)), ck, c)
+    stamps = [s_ for s_, _ in _stamps(cx, rq, cvar)]
+    reqs = set(n.id for n in ast.walk(argn(lcall, 'request', 0) or ast.Constant(value=None)) if isinstance(n, ast.Name)) - {'self'}
+    before = cfg.coreach(cfg.nodes_of(nst))
+    n_ok = 0
+    for ef, st in _cookie_writes(rq, names):
+        key = fkey(rq, 'cookie write: %s' % norm(ef.node))
+        if not any(st is x for x in stamps):
+            rep.fail('R16.g', key, 'the middleware itself stores data in the cookie (%s): the endpoint / the client gets contents the application did not store'
+                     % short(ef.node, 60), ck, ef.node)
+        elif set(cfg.nodes_of(st)) & before:
+            rep.fail('R16.g', key, '%s can run before the endpoint: the cookie provided is not exactly what the client sent' % short(ef.node, 60), ck, ef.node)
+        else:
+            ops = [getattr(ef.node, 'value', None)] if not isinstance(ef.node, ast.Call) else list(ef.node.args) + [k.value for k in ef.node.keywords]
+            t = [o for o in ops if o is not None and _derives(fl, o, st, reqs, names, [lst])]
+            rep.check('R16.g', key, not t, 'the expiry stamp is computed from configuration and clock' if not t else
+                      'the expiry stamped into the signed cookie is taken from the request (%s): the client chooses how long its cookie stays valid'
+                      % short(t[0], 50), ck, ef.node)
+            n_ok += 1
+    for c in saves:
+        at = stmt_of(ck, c)
+        srcs = []
+        for nm, pos in (('expires', 2), ('session_expires', 3)):
+            a = argn(c, nm, pos)
+            if a is not None:
+                srcs.append((nm, a, at))
+        for k in c.keywords:
+            if k.arg is not None:
+                continue
+            layers = layers_of_var(rq.node, k.value.id) if isinstance(k.value, ast.Name) else layers_of_expr(k.value)
+            for l in layers:
+                lat = l.node if isinstance(l.node, ast.stmt) else stmt_of(ck, l.node)
+                if l.keys is not None:
+                    srcs += [(nm, l.values[nm], lat) for nm in ('expires', 'session_expires') if l.values.get(nm) is not None]
+                else:
+                    srcs.append(('**', l.node.value if isinstance(l.node, ast.Assign) else l.node, lat))
+        t = [(nm, e) for nm, e, lat in srcs if isinstance(e, ast.AST) and lat is not None and _derives(fl, e, lat, reqs, names, [lst])]
+        rep.check('R16.g', fkey(rq, 'signed expiry'), not t, 'the expiry handed to save_cookie (signed into the cookie as _expires) comes from the cookie / the configuration'
+                  if not t else 'save_cookie(%s=%s): the expiry the dependency signs into the cookie is taken from the request'
+                  % (t[0][0], short(t[0][1], 40)), ck, c)
+    rep.floor('R16.g', 4)
+
+
+# ---------------------------------------------------------------------------------------------- R16.h
+# What the application stored is what the client gets back: SecureCookie.save_cookie() writes the cookie when
+# ``self.should_save`` -- in the dependency: ``self.modified``, which every mutating dict method sets.  A subclass that
+# narrows that decision ("modified AND different from what the client already holds") has to compare against something
+# the application cannot reach: a snapshot that shares its nested values with the live cookie changes along with them
+# (``cart = cookie['cart']; cart.append(x); cookie['cart'] = cart`` leaves cookie == snapshot), the cookie is not re-sent
+# and the next request presents the old contents.
+JUDGED_ELSEWHERE = ('quote', 'unquote', 'unserialize', 'serialization_method', 'hash_method', 'serialize', 'load_cookie', 'save_cookie')
+DICT_PROTOCOL = ('__setitem__', '__delitem__', '__getitem__', '__contains__', '__iter__', '__len__', '__eq__', '__ne__', 'update', 'pop',
+                 'popitem', 'clear', 'setdefault', 'get', 'items', 'keys', 'values', 'copy', 'on_update', 'modified', 'new', 'secret_key')
+DEEP_SNAPSHOTS = ('deepcopy', 'dumps', 'serialize', 'quote', 'repr', 'str', 'hash')
+SHALLOW_COPIERS = ('dict', 'list', 'tuple', 'set', 'frozenset', 'sorted', 'OrderedDict', 'copy', 'items', 'values', 'keys', 'fromkeys', 'ChainMap')
+
+
+def rule_h(rep, cx):
+    ck, repo, dep = cx.ck, cx.repo, cx.dep
+    rep.rule('R16.h', 'a cookie the application modified is written back: should_save is the dependency\'s (= modified) or narrows it only by '
+                      'comparing with an independent (deep) snapshot; the constructor hands data / key / new on unchanged')
+    jc = ck.cls('JSONCookie')
+    mro = [c for c in repo.mro(jc) if isinstance(c, ClassInfo)]
+    own = [c for c in mro if not c.mod.external]
+    ext = [c for c in mro if c.mod.external]
+    if not ext:
+        raise AnalysisError('JSONCookie: the dependency classes it derives from are not resolved')
+    dep_names = set(n for c in ext for n in list(c.methods) + list(c.class_attrs))
+    sc = dep.cls('SecureCookie')
+    used = set(n.attr for m in sc.methods.values() for n in ast.walk(m.node)
+               if isinstance(n, ast.Attribute) and isinstance(n.value, ast.Name) and n.value.id in ('self', 'cls'))
+    # -- should_save
+    owner, node = repo.class_attr(jc, 'should_save')
+    if owner is None:
+        raise AnalysisError('JSONCookie.should_save: not found along the MRO')
+    key = '%s::JSONCookie.should_save' % COOKIE
+    if owner.mod.external:
+        rep.ok('R16.h', key, 'JSONCookie inherits should_save from the dependency (true whenever the cookie was modified)', ck, jc.node)
+    else:
+        fn = owner.methods.get('should_save')
+        if fn is None:
+            v = cx.fold(node) if isinstance(node, ast.expr) else _NOFOLD
+            if v is True:
+                rep.ok('R16.h', key, 'should_save is constantly true: the cookie is always written', owner.mod, owner.node)
+            else:
+                raise AnalysisError('%s.should_save is bound to %s, which is not followed' % (owner.name, short(node, 40) if node is not None else '?'))
+        else:
+            if [norm(d) for d in fn.node.decorator_list] != ['property']:
+                raise AnalysisError('%s.should_save: decorators %s are not followed' % (owner.name, [norm(d) for d in fn.node.decorator_list]))
+            rets = returns_of(fn)
+            if not rets or cfg_of(fn).exit in cfg_of(fn).reach([cfg_of(fn).entry], avoid=set(cfg_of(fn).nodes_of_all(rets)), normal_only=True):
+                rep.fail('R16.h', key, 'should_save can end without a value (None is false): a modified cookie is not written back', owner.mod, fn.node)
+            bad = []
+            for r in rets:
+                if has_cond(conds(fn, r), _is_modified, False):
+                    continue        # reached only for a cookie that was not modified
+                for why, at in _narrowings(cx, own, fn, r.value if r.value is not None else ast.Constant(value=None), 0):
+                    bad.append((why, at))
+            for why, at in bad:
+                rep.fail('R16.h', key, why, owner.mod, at)
+            if not bad:
+                rep.ok('R16.h', key, 'should_save is true whenever the cookie was modified and its contents differ from an independent snapshot',
+                       owner.mod, fn.node)
+    # -- the constructor
+    owner, node = repo.class_attr(jc, '__init__')
+    key = '%s::JSONCookie.__init__' % COOKIE
+    if owner is None:
+        raise AnalysisError('JSONCookie.__init__: not found along the MRO')
+    if owner.mod.external:
+        rep.ok('R16.h', key, 'JSONCookie is constructed by the dependency\'s __init__(data, secret_key, new)', ck, jc.node)
+    else:
+        _constructor(rep, cx, key, owner, owner.methods['__init__'], dep_names)
+    # -- anything else of the dependency's machinery the class (or a mixin of it) replaces
+    for c in own:
+        for nm in sorted(set(list(c.methods) + list(c.class_attrs))):
+            if nm in dep_names and nm not in JUDGED_ELSEWHERE + ('should_save', '__init__') and (nm in used or nm in DICT_PROTOCOL):
+                raise AnalysisError('%s overrides %s of the dependency, which its load / save path uses: the override is not followed' % (c.name, nm))
+
+
+def _narrowings(cx, own, fn, e, depth):
+    """[(why the value can be false for a modified cookie, node)] for the value expression of should_save."""
+    if depth > 6:
+        raise AnalysisError('should_save: expression too deep')
+    e = _follow(fn, e)
+    if isinstance(e, ast.Constant):
+        return [] if e.value is True else [('should_save is constantly %r: a modified cookie is never written back' % (e.value,), e)]
+    if _is_modified(e):
+        return []
+    if isinstance(e, ast.BoolOp) and isinstance(e.op, ast.Or):
+        if any(_is_modified(_follow(fn, v)) or (isinstance(v, ast.Constant) and v.value is True) for v in e.values):
+            return []
+        raise AnalysisError('should_save: %s is not followed' % short(e, 60))
+    if isinstance(e, ast.BoolOp) and isinstance(e.op, ast.And):
+        out = []
+        for v in e.values:
+            out += _narrowings(cx, own, fn, v, depth + 1)
+        return out
+    snap = _snapshot_compare(fn, e)
+    if snap is None:
+        raise AnalysisError('should_save: the condition %s is not followed' % short(e, 60))
+    stores = []
+    for c in own:
+        for m in c.methods.values():
+            for st in stmts_of(m.node):
+                if isinstance(st, (ast.Assign, ast.AnnAssign)) and st.value is not None:
+                    for t in (st.targets if isinstance(st, ast.Assign) else [st.target]):
+                        if isinstance(t, ast.Attribute) and norm(t.value) == 'self' and t.attr == snap:
+                            stores.append((m, st))
+    if not stores:
+        raise AnalysisError('should_save compares with self.%s, which no method of the class binds' % snap)
+    out = []
+    for m, st in stores:
+        kind = _snapshot_kind(cx, m, st.value, 0)
+        if kind == 'shallow':
+            out.append(('should_save is narrowed to "modified and different from self.%s", but %s binds self.%s = %s -- %s: the nested values '
+                        '(lists, dicts) of the snapshot ARE the objects the endpoint gets from the cookie, so the usual '
+                        '"v = cookie[k]; v.append(x); cookie[k] = v" changes the snapshot too, cookie == snapshot, no Set-Cookie is sent and the '
+                        'next request presents the old contents instead of what the application stored'
+                        % (snap, m.qualname, snap, short(st.value, 40), 'a shallow copy' if not _is_self(st.value) else 'the cookie itself'), st))
+        elif kind is None:
+            raise AnalysisError('should_save compares with self.%s = %s (in %s): whether that snapshot is independent of the live values is not decided'
+                                % (snap, short(st.value, 40), m.qualname))
+    return out
+
+
+def _is_self(e):
+    return isinstance(e, ast.Name) and e.id == 'self'
+
+
+def _is_modified(e):
+    """``self.modified`` / the dependency's own should_save (``super().should_save``)."""
+    if isinstance(e, ast.Attribute) and e.attr == 'modified' and _is_self(e.value):
+        return True
+    return isinstance(e, ast.Attribute) and e.attr == 'should_save' and isinstance(e.value, ast.Call) and call_name(e.value) == 'super'
+
+
+def _snapshot_compare(fn, e):
+    """Attribute name S when ``e`` says "the contents differ from self.S": ``live != self.S`` / ``not live == self.S`` (either
+    order), live being an expression over ``self`` only."""
+    neg = False
+    e = _follow(fn, e)
+    while isinstance(e, ast.UnaryOp) and isinstance(e.op, ast.Not):
+        e, neg = _follow(fn, e.operand), not neg
+    if not (isinstance(e, ast.Compare) and len(e.ops) == 1):
+        return None
+    differs = (isinstance(e.ops[0], ast.NotEq) and not neg) or (isinstance(e.ops[0], ast.Eq) and neg)
+    if not differs:
+        return None
+    a, b = _follow(fn, e.left), _follow(fn, e.comparators[0])
+    for live, snap in ((a, b), (b, a)):
+        if isinstance(snap, ast.Attribute) and _is_self(snap.value) and not (isinstance(live, ast.Attribute) and _is_self(live.value)) \
+                and set(n.id for n in ast.walk(live) if isinstance(n, ast.Name)) - set(SHALLOW_COPIERS) - set(DEEP_SNAPSHOTS) <= {'self', 'json', 'copy'}:
+            return snap.attr
+    return None
+
+
+def _snapshot_kind(cx, m, v, depth):
+    """'deep' (shares no mutable object with the cookie: deepcopy, a serialised form, a constant), 'shallow' (the cookie itself, or a
+    new container holding the cookie's own values), None (not decided)."""
+    v = _follow(m, v)
+    if isinstance(v, ast.Constant):
+        return 'deep'
+    names = set(n.id for n in ast.walk(v) if isinstance(n, ast.Name))
+    live = names & (set(_all_params(m.node)) | {'self'})
+    if isinstance(v, ast.Call):
+        tail = call_tail(v)
+        if tail in DEEP_SNAPSHOTS:
+            return 'deep'
+        if tail in SHALLOW_COPIERS and live:
+            return 'shallow'
+        return None
+    if isinstance(v, (ast.Dict, ast.List, ast.Tuple, ast.Set, ast.DictComp, ast.ListComp, ast.SetComp)):
+        if not live:
+            return 'deep' if not names else None
+        inner = [x for x in ast.walk(v) if isinstance(x, ast.Call) and call_tail(x) in DEEP_SNAPSHOTS]
+        return 'shallow' if not inner else None
+    if isinstance(v, ast.Name) and v.id in live:
+        return 'shallow'
+    if isinstance(v, ast.BoolOp) and depth < 4:
+        ks = [_snapshot_kind(cx, m, x, depth + 1) for x in v.values]
+        return 'shallow' if 'shallow' in ks else None if None in ks else 'deep'
+    return None
+
+
+def _constructor(rep, cx, key, owner, fi, dep_names):
+    """A constructor of the cookie class written in the analysed tree: the dependency builds cookies as cls(items, secret_key, False) /
+    cls(secret_key=..): data, key and the new-flag must reach the dependency's __init__ as given, on every path, and the constructor
+    itself puts nothing into the cookie."""
+    from ..effects import effects_in
+    mod = fi.mod
+    a = fi.node.args
+    sups = [c for c in walk_body(fi.node) if isinstance(c, ast.Call) and call_tail(c) == '__init__' and isinstance(c.func, ast.Attribute)]
+    if len(sups) != 1:
+        raise AnalysisError('%s.__init__: %d calls of a base __init__' % (owner.name, len(sups)))
+    c = sups[0]
+    unbound = not (isinstance(c.func.value, ast.Call) and call_name(c.func.value) == 'super')
+    through = a.vararg is not None and a.kwarg is not None and len(a.args) == 1 and \
+        [norm(x) for x in c.args[1 if unbound else 0:]] == ['*' + a.vararg.arg] and [(k.arg, norm(k.value)) for k in c.keywords] == [(None, a.kwarg.arg)]
+    if through:
+        fwd_ok, why = True, 'every argument is passed through (*args, **kwargs)'
+    else:
+        if any(isinstance(x, ast.Starred) for x in c.args) or any(k.arg is None for k in c.keywords) or a.vararg or a.kwarg:
+            raise AnalysisError('%s.__init__: the call %s is not followed' % (owner.name, short(c, 60)))
+        ps = fi.params()[1:]
+        off = 1 if unbound else 0
+        got = dict((nm, argn(c, nm, i + off)) for i, nm in enumerate(('data', 'secret_key', 'new')))
+        wrong = [nm for nm in ('data', 'secret_key', 'new') if nm not in ps or got[nm] is None or norm(got[nm]) != nm or assigned_value(fi.node, nm)]
+        fwd_ok = not wrong and ps[:3] == ['data', 'secret_key', 'new']
+        why = 'data, secret_key and new are handed to the dependency\'s constructor as received' if fwd_ok else \
+            'the constructor does not hand %s on unchanged (the dependency builds cookies as cls(items, secret_key, False)): %s' % (', '.join(wrong) or 'its arguments', short(c, 60))
+    cfg = cfg_of(fi)
+    always = cfg.must_pass(cfg.nodes_of(stmt_of(mod, c)), cfg.entry, cfg.exit, normal_only=True)
+    rep.check('R16.h', key, fwd_ok and always, why if not fwd_ok or always else 'the base constructor is not called on every path', mod, c)
+    for ef in effects_in(fi.node):
+        if ef.root != 'self':
+            continue
+        into = (ef.kind == 'mutcall' and _is_self(ef.target)) or (isinstance(ef.target, ast.Subscript) and _is_self(ef.target.value))
+        over = isinstance(ef.target, ast.Attribute) and _is_self(ef.target.value) and ef.target.attr in dep_names and ef.kind != 'mutcall'
+        if into or over:
+            rep.fail('R16.h', key + '::%s' % norm(ef.node), '%s in the constructor %s' % (short(ef.node, 50),
+                     'puts data into every cookie that the application did not store' if into else
+                     'replaces %s, which the dependency\'s load / save path uses' % ef.target.attr), mod, ef.node)
